@@ -166,14 +166,15 @@ MCScen == [
 ]
 
 Defective(df) == df # "none"
-MainTx == {"cA", "cB", "cC", "cAx", "cA2", "uA1", "uAx", "uAxB", "uAkB", "uAkid", "uA2", "uA3", "uAk2", "uAk2o", "uAb", "uAbB", "uAbA",
+\* (the re-creation cA2 is independent of everything else and doubles the state space: it is part of QuickTx only)
+MainTx == {"cA", "cB", "cC", "cAx", "uA1", "uAx", "uAxB", "uAkB", "uAkid", "uA2", "uA3", "uAk2", "uAk2o", "uAb", "uAbB", "uAbA",
            "dB", "uAbBd", "uBc", "dC", "uAbBc", "uBa", "uAbBa", "dA", "uAr", "uAnf", "uB2", "uB3", "uAbK2"}
 QuickTx == {"cA", "cB", "cAx", "cA2", "uA1", "uAx", "uAxB", "uAkB", "uAkid", "uA2", "uA3", "uAk2", "uAk2o", "uAb", "uAbB", "uAbA", "dB",
             "uAbBd", "dA", "uAr", "uAnf"}
 
 ChainTx == {"h1", "h2", "h3", "h4", "h5", "h6", "h7", "g1", "g1s", "g2", "g3", "g4", "h7d"}
 
-AllTx == MainTx \cup ChainTx
+AllTx == MainTx \cup QuickTx \cup ChainTx
 
 \* clocks respect the prevs relation (premise of ConflictResolvedByJoin), prevs name known transactions
 ASSUME \A e \in DOMAIN MCT : \A p \in Range(MCT[e].prevs) : p \in DOMAIN MCT /\ MCT[p].lc < MCT[e].lc
